@@ -9,12 +9,14 @@ import (
 	"encoding/json"
 	"errors"
 	"fmt"
+	"io"
 	"math/rand"
 	"runtime"
 	"strings"
 	"sync"
 	"time"
 
+	"github.com/wrgl/wrgl/pkg/pbar"
 	"github.com/wrgl/wrgl/pkg/vhook"
 
 	"verifharness/internal/child"
@@ -135,14 +137,30 @@ func Run(sc *Scenario) []interface{} {
 		}
 	}
 	uninstall := install(r)
-	sum, err := tbl.Ingest(db, csv, []string{"id"}, tbl.IngestOpts{Workers: sc.Workers + 2})
+	// as `wrgl commit` on a terminal: the workers report every block to one visible progress bar, the command ends
+	// with Done + Container.Wait - which must return whatever the workers' schedule was
+	bars := pbar.NewContainer(io.Discard, false)
+	bar := bars.NewBar(-1, "Saving blocks", 0)
+	sum, err := tbl.Ingest(db, csv, []string{"id"}, tbl.IngestOpts{Workers: sc.Workers + 2, Bar: bar})
 	uninstall()
+	waited := make(chan struct{})
+	go func() {
+		bar.Done()
+		bars.Wait()
+		close(waited)
+	}()
+	barHung := false
+	select {
+	case <-waited:
+	case <-time.After(20 * time.Second):
+		barHung = true
+	}
 	events := []interface{}{map[string]interface{}{"op": "reset", "point": "", "tok": 0, "off": 0, "rows": 0}}
 	events = append(events, r.events...)
 	fin := map[string]interface{}{"op": "final", "point": "", "tok": 0, "off": 0, "rows": 0,
 		"err": err != nil, "fault": hit, "same": false, "nblocks": 0, "reforr": refErr != nil,
 		"workers": sc.Workers, "procs": sc.Procs, "yieldpm": sc.YieldPm, "faultat": sc.FaultAt, "blocks": sc.Blocks,
-		"seed": sc.Seed, "idx": sc.Idx, "errtext": ""}
+		"seed": sc.Seed, "idx": sc.Idx, "errtext": "", "barhung": barHung}
 	if err != nil {
 		fin["errtext"] = err.Error()
 	} else {
@@ -166,6 +184,9 @@ func Replay(i int, raw []byte) child.Result {
 	}
 	events := Run(&sc)
 	child.EmitBatch("pool", events)
+	if fin := events[len(events)-1].(map[string]interface{}); fin["barhung"] == true {
+		return child.Fail("pool/progress-bar-never-finishes", map[string]interface{}{"workers": sc.Workers, "blocks": sc.Blocks})
+	}
 	cls := fmt.Sprintf("w%d", sc.Workers)
 	if sc.FaultAt > 0 {
 		cls += "+fault"
